@@ -245,7 +245,10 @@ impl<'a> Gen<'a> {
             }
             6 => format!(r#"<feTile{a}/>"#),
             7 => {
-                let f = |g: &mut Self| match g.rng.below(5) {
+                let f = |g: &mut Self| match g.rng.below(7) {
+                    // (an empty or missing list of table values is legal and means identity)
+                    5 => format!(r#"type="{}" tableValues="""#, g.rng.pick(&["table", "discrete"])),
+                    6 => format!(r#"type="{}""#, g.rng.pick(&["table", "discrete"])),
                     0 => r#"type="identity""#.to_string(),
                     1 => format!(r#"type="linear" slope="{}" intercept="{}""#, num(g.rng.f32_in(0.2, 2.0)), num(g.rng.f32_in(-0.2, 0.4))),
                     2 => format!(r#"type="gamma" amplitude="{}" exponent="{}" offset="0""#, num(g.rng.f32_in(0.5, 1.5)), num(g.rng.f32_in(0.5, 3.0))),
